@@ -53,6 +53,14 @@ def run(c, props=PROPS, profile=PROFILE, oracle=ORACLE, rule=RULE, extra_stage=N
             cov.update(evaluations=summ.get("ops", 0), histories=summ.get("cases", 0), distinct_nontrivial=nontrivial(hist),
                        samples=st["samples"], disagreements_checked=len(mism), input_distribution=st["kinds"], ops=st["ops"],
                        oracle_violations=len(viol))
+            khits = [l for l in other if l.startswith("KNOWN c07-renamed")]
+            if khits:
+                cov["known_renamed_field_cases"] = len(khits)
+                kf = {f["id"]: f for f in c.known_findings()}
+                if "C07-same-types-other-keys" in kf:
+                    c.known(kf["C07-same-types-other-keys"])
+                else:
+                    c.violation({"kind": "a finding that KNOWN_FINDINGS.jsonl does not list", "lines": khits[:5]})
             for v in viol[:3]:
                 sid = re.search(r"case=(\d+)", v)
                 c.violation({"kind": "oracle %s false on the implementation's observations" % oracle, "case": v[:3000],
